@@ -104,10 +104,24 @@ class InlineIndex:
             if n == 0 or n > MAX_SITES or len(body.blocks) > MAX_BLOCKS:
                 ok = False
             else:
-                # not recursive
-                cl = self.cg.closure([g], lambda f: f.in_testonly())
-                callers_in = [c for c in cl if g in self.cg.edges.get(c, ())]
-                if callers_in:
+                # not recursive through statically resolved calls (only those are spliced; a cycle that passes a trait
+                # call on a generic parameter - Stream<S>::poll_read calling S::poll_read - is a different instance)
+                why = self.cg.edge_why
+                seen = {g}
+                st = [g]
+                rec = False
+                while st and not rec:
+                    x = st.pop()
+                    for y in self.cg.edges.get(x, ()):
+                        if why.get((x, y)) not in ("direct", "closure") or y.in_testonly():
+                            continue
+                        if y is g:
+                            rec = True
+                            break
+                        if y not in seen:
+                            seen.add(y)
+                            st.append(y)
+                if rec:
                     ok = False
         self._helper[g] = ok
         return ok
